@@ -631,7 +631,7 @@ package bls12377
 //@ cut after call io.Writer.Write #*
 //@ + ghost failed = failed || !isnil(callresult1)
 //@ cut before call io.Writer.Write #*
-//@ + invariant[bytes-of-the-point] len(callarg1) == len(resultof_Bytes) && forall(j, 0, len(resultof_Bytes), callarg1[j] == resultof_Bytes[j])
+//@ + invariant[bytes-of-the-point] called(Bytes) && len(callarg1) == len(resultof_Bytes) && forall(j, 0, len(resultof_Bytes), callarg1[j] == resultof_Bytes[j])
 //@ loop 0
 //@ + invariant[index] 0 <= iter && iter <= 1099511627776
 //@ + invariant[no-failure-so-far] !failed
@@ -663,7 +663,7 @@ package bls12377
 //@ cut after call io.Writer.Write #*
 //@ + ghost failed = failed || !isnil(callresult1)
 //@ cut before call io.Writer.Write #*
-//@ + invariant[bytes-of-the-point] len(callarg1) == len(resultof_Bytes) && forall(j, 0, len(resultof_Bytes), callarg1[j] == resultof_Bytes[j])
+//@ + invariant[bytes-of-the-point] called(Bytes) && len(callarg1) == len(resultof_Bytes) && forall(j, 0, len(resultof_Bytes), callarg1[j] == resultof_Bytes[j])
 //@ loop 0
 //@ + invariant[index] 0 <= iter && iter <= 1099511627776
 //@ + invariant[no-failure-so-far] !failed
@@ -693,7 +693,7 @@ package bls12377
 //@ cut after call io.Writer.Write #*
 //@ + ghost failed = failed || !isnil(callresult1)
 //@ cut before call io.Writer.Write #*
-//@ + invariant[bytes-of-the-point] len(callarg1) == len(resultof_Bytes) && forall(j, 0, len(resultof_Bytes), callarg1[j] == resultof_Bytes[j])
+//@ + invariant[bytes-of-the-point] called(Bytes) && len(callarg1) == len(resultof_Bytes) && forall(j, 0, len(resultof_Bytes), callarg1[j] == resultof_Bytes[j])
 //@ loop 0
 //@ + invariant[index] 0 <= iter && iter <= 1099511627776
 //@ + invariant[no-failure-so-far] !failed
@@ -725,7 +725,7 @@ package bls12377
 //@ cut after call io.Writer.Write #*
 //@ + ghost failed = failed || !isnil(callresult1)
 //@ cut before call io.Writer.Write #*
-//@ + invariant[bytes-of-the-point] len(callarg1) == len(resultof_Bytes) && forall(j, 0, len(resultof_Bytes), callarg1[j] == resultof_Bytes[j])
+//@ + invariant[bytes-of-the-point] called(Bytes) && len(callarg1) == len(resultof_Bytes) && forall(j, 0, len(resultof_Bytes), callarg1[j] == resultof_Bytes[j])
 //@ loop 0
 //@ + invariant[index] 0 <= iter && iter <= 1099511627776
 //@ + invariant[no-failure-so-far] !failed
@@ -928,7 +928,7 @@ package bls12377
 //@ cut after call io.Writer.Write #*
 //@ + ghost failed = failed || !isnil(callresult1)
 //@ cut before call io.Writer.Write #*
-//@ + invariant[bytes-of-the-point] len(callarg1) == len(resultof_RawBytes) && forall(j, 0, len(resultof_RawBytes), callarg1[j] == resultof_RawBytes[j])
+//@ + invariant[bytes-of-the-point] called(RawBytes) && len(callarg1) == len(resultof_RawBytes) && forall(j, 0, len(resultof_RawBytes), callarg1[j] == resultof_RawBytes[j])
 //@ loop 0
 //@ + invariant[index] 0 <= iter && iter <= 1099511627776
 //@ + invariant[no-failure-so-far] !failed
@@ -960,7 +960,7 @@ package bls12377
 //@ cut after call io.Writer.Write #*
 //@ + ghost failed = failed || !isnil(callresult1)
 //@ cut before call io.Writer.Write #*
-//@ + invariant[bytes-of-the-point] len(callarg1) == len(resultof_RawBytes) && forall(j, 0, len(resultof_RawBytes), callarg1[j] == resultof_RawBytes[j])
+//@ + invariant[bytes-of-the-point] called(RawBytes) && len(callarg1) == len(resultof_RawBytes) && forall(j, 0, len(resultof_RawBytes), callarg1[j] == resultof_RawBytes[j])
 //@ loop 0
 //@ + invariant[index] 0 <= iter && iter <= 1099511627776
 //@ + invariant[no-failure-so-far] !failed
@@ -990,7 +990,7 @@ package bls12377
 //@ cut after call io.Writer.Write #*
 //@ + ghost failed = failed || !isnil(callresult1)
 //@ cut before call io.Writer.Write #*
-//@ + invariant[bytes-of-the-point] len(callarg1) == len(resultof_RawBytes) && forall(j, 0, len(resultof_RawBytes), callarg1[j] == resultof_RawBytes[j])
+//@ + invariant[bytes-of-the-point] called(RawBytes) && len(callarg1) == len(resultof_RawBytes) && forall(j, 0, len(resultof_RawBytes), callarg1[j] == resultof_RawBytes[j])
 //@ loop 0
 //@ + invariant[index] 0 <= iter && iter <= 1099511627776
 //@ + invariant[no-failure-so-far] !failed
@@ -1022,7 +1022,7 @@ package bls12377
 //@ cut after call io.Writer.Write #*
 //@ + ghost failed = failed || !isnil(callresult1)
 //@ cut before call io.Writer.Write #*
-//@ + invariant[bytes-of-the-point] len(callarg1) == len(resultof_RawBytes) && forall(j, 0, len(resultof_RawBytes), callarg1[j] == resultof_RawBytes[j])
+//@ + invariant[bytes-of-the-point] called(RawBytes) && len(callarg1) == len(resultof_RawBytes) && forall(j, 0, len(resultof_RawBytes), callarg1[j] == resultof_RawBytes[j])
 //@ loop 0
 //@ + invariant[index] 0 <= iter && iter <= 1099511627776
 //@ + invariant[no-failure-so-far] !failed
